@@ -96,7 +96,11 @@ def standin(rep: Report):
     t0 = time.time()
     base = pool.PY_STMTS[:40] + pool.XSH_STMTS[:15] + ["x = 'é'\n", "é = 1\n", "# ü comment\nx = 1\n", "x = 'ü' +\n", "def f(:\n  'é'\n", "x y z\n", "@a\n", "(a\n\nb c)\n",
                                                        "x = (1,\n# c\n 2 3)\n", "if a:\n  b\n c\n", "f!(a,,b)\n", "x = $(ls é)\n", "s = '''a\nb''' c\n", "x = 1 # a\x0cb\ny = (a 1)\n",
-                                                       "s = 'a\u2028b'\ny = (a 1)\n", "\x0c\nx = 1\ny = (a 1)\n"]
+                                                       "s = 'a\u2028b'\ny = (a 1)\n", "\x0c\nx = 1\ny = (a 1)\n",
+                                                       # raw-capture constructs (they read the line source on their own) followed by an error on another line
+                                                       "echo!(hello world)\ny = = 1\n", "def g():\n    log!(a b)\n    return (1 2)\n", "f!(a,\n b\n ,c) = 1\n",
+                                                       "with! ctx:\n    body here\ny = (1 2)\n", "with! ctx: one line\nz = = 2\n", "$(echo! a  b)\nq = (3 4)\n",
+                                                       "x = f'{a}' \\\n  'b'\ny = (5 6)\n"]
     contents = []
     for s in base:
         contents.append(s)
